@@ -118,6 +118,17 @@ def check_prefix(path_full, data, k, full, tmpdir, parse_budget):
             return [f'Parser(path) raised {type(e).__name__}: {e}']
         if st == 'error':
             return []
+        if not blocks:
+            # (the editions that exist are parsed below; asking for the last edition of a listing without any must be a parser error too)
+            probs.append('Parser(path) succeeded although the listing holds no complete edition')
+            try:
+                p.parse_from_index(-1)
+            except ParserException:
+                pass
+            except Hang:
+                probs.append(f'parse_from_index(-1) did not finish within {PER_PARSE_SECONDS} s')
+            except Exception as e:      # noqa
+                probs.append(f'parse_from_index(-1) raised {type(e).__name__}: {e}')
         for b, block in blocks.items():
             same_block = full['blocks'] is not None and full['blocks'].get(b) == block
             if same_block and parse_budget[0] <= 0:
